@@ -114,7 +114,10 @@ func (c *allOfConstraintCompiler) extendWith(node ischema.Node, name string) {
 		fromAdditionalProperties := fromAdditionalProperties.(*constraint.AdditionalProperties)
 		if toAdditionalProperties := toObject.Constraint(constraint.AdditionalPropertiesConstraintType); toAdditionalProperties != nil { //nolint:lll
 			toAdditionalProperties := toAdditionalProperties.(*constraint.AdditionalProperties)
-			if !fromAdditionalProperties.IsEqual(*toAdditionalProperties) {
+			// IsEqual does not look at the mode: "true" and "false" carry neither a
+			// schema type nor a type name.
+			if fromAdditionalProperties.Mode() != toAdditionalProperties.Mode() ||
+				!fromAdditionalProperties.IsEqual(*toAdditionalProperties) {
 				panic(errs.ErrConflictAdditionalProperties.F())
 			}
 		} else {
